@@ -123,7 +123,14 @@ def run(repo: Repo, chk: Check, thorough: bool = False) -> None:
             detail = 'the line parser is not called inside a per-line try handling ValueError'
             continue
         h = hs[0]
-        if not (h.body and isinstance(h.body[-1], ast.Continue)) or reraises(h):
+        # "skipped": from the handler the next thing that happens is the next iteration - nothing of the line is stored on the way and the handler does
+        # not raise (`except: report; continue`, or `try/except/else` with the store in the else clause)
+        cfpi = CFG(pi)
+        lp_ = next((p for p in parents(c) if isinstance(p, (ast.For, ast.While))), None)
+        onward = cfpi.reachable(h, avoid_nodes=[lp_] if lp_ is not None else [], no_exc=True)
+        stores_l = [n for n in pi.walk() if isinstance(n, ast.Assign) and any(isinstance(t, ast.Subscript) for t in n.targets) and id(n) in onward]
+        goes_on = lp_ is not None and id(lp_) in cfpi.reachable(h, no_exc=True)
+        if stores_l or reraises(h) or not goes_on:
             ok = False
             detail = 'the ValueError handler does not continue with the next line'
         if not any(isinstance(n, ast.Call) and call_name(n) == 'error' for st in h.body for n in ast.walk(st)):
@@ -137,26 +144,34 @@ def run(repo: Repo, chk: Check, thorough: bool = False) -> None:
     cfgp = CFG(gp)
     # stage 1, inflate: failures are reported; a truncated stream keeps the lines that were recovered (incremental decompressor) - the
     # one-shot zlib.decompress() is all-or-nothing
-    oneshot = [c for c in calls_in(gp) if call_name(c) == 'decompress' and norm(c.func).startswith('zlib.')]
-    incr = [c for c in calls_in(gp) if call_name(c) == 'decompressobj']
-    inflate = oneshot + [c for c in calls_in(gp) if call_name(c) == 'decompress' and not norm(c.func).startswith('zlib.')]
+    # the inflate stage may live in _getPayload itself or in a private helper of the module it calls (`_decompressPayload(payload)`)
+    zf = gp
+    if not any(call_name(c) in ('decompress', 'decompressobj') for c in calls_in(gp)):
+        called_gp = {call_name(c) for c in calls_in(gp)}
+        cands_z = [g for g in repo.funcs.values() if g.mod is gp.mod and g.name in called_gp and g.name.startswith('_') and
+                   any(call_name(c) in ('decompress', 'decompressobj') for c in calls_in(g))]
+        if cands_z:
+            zf = cands_z[0]
+    oneshot = [c for c in calls_in(zf) if call_name(c) == 'decompress' and norm(c.func).startswith('zlib.')]
+    incr = [c for c in calls_in(zf) if call_name(c) == 'decompressobj']
+    inflate = oneshot + [c for c in calls_in(zf) if call_name(c) == 'decompress' and not norm(c.func).startswith('zlib.')]
     if not inflate:
         raise AnalysisError('R17.3: no decompress() call in _getPayload')
     for c in inflate:
         h = None
-        for t in enclosing_trys(c, gp.node):
+        for t in enclosing_trys(c, zf.node):
             h = _handles(t, 'error')
             if h is not None:
                 break
-        reported = any(call_name(x) == 'error' and isinstance(x.func, ast.Attribute) and dotted(x.func.value) == 'self' for x in calls_in(gp))
+        reported = any(call_name(x) == 'error' and isinstance(x.func, ast.Attribute) and dotted(x.func.value) == 'self' for x in calls_in(gp) + calls_in(zf))
         ok = h is not None and not reraises(h) and reported
         chk.ob('R17.3', f'{READER}._getPayload :: inflate failure is caught and reported', ok,
                f'except {", ".join(handler_names(h))} + self.error(...)' if ok and h is not None else 'a failing decompress() is not caught / not reported',
-               repo.loc(gp.mod, c))
+               repo.loc(zf.mod, c))
     chk.ob('R17.3', f'{READER}._getPayload :: a truncated stream keeps its complete lines', bool(incr) and not oneshot,
            'zlib.decompressobj(): what was inflated before the damage is kept' if incr and not oneshot else
            'zlib.decompress() is all-or-nothing: an objects.inv cut short by a few bytes (interrupted download) yields no entry at all, although almost '
-           'every line is recoverable - "usable lines in the same file still resolve" does not hold', repo.loc(gp.mod, inflate[0]))
+           'every line is recoverable - "usable lines in the same file still resolve" does not hold', repo.loc(zf.mod, inflate[0]))
     # the recovery feed: a decompressor raises for the WHOLE chunk it was given, the bytes that chunk had already inflated are lost with the exception.
     # "What precedes the damage is kept" therefore needs the feed inside the recovery loop to be one byte wide (zlib API fact; a wider stride loses up
     # to a chunk of good lines, and everything of an inventory smaller than the chunk)
@@ -186,7 +201,7 @@ def run(repo: Repo, chk: Check, thorough: bool = False) -> None:
                'decompress(x[i:i + 1]) for every i: an exception loses at most the damaged byte' if width == '1' else
                f'the recovery loop feeds chunks of width {width}: decompress() raises for the whole chunk that contains the damage, so what that chunk had already inflated is '
                'lost - an inventory whose compressed part is smaller than the chunk (any small project) yields no entry at all after one damaged byte, larger ones lose dozens of '
-               'usable lines in front of the damage', repo.loc(gp.mod, c))
+               'usable lines in front of the damage', repo.loc(zf.mod, c))
     # stage 2, decode: a line that is not UTF-8 must not take the other lines with it
     dec = [c for c in calls_in(gp) if call_name(c) == 'decode']
     if not dec:
@@ -213,6 +228,10 @@ def run(repo: Repo, chk: Check, thorough: bool = False) -> None:
     # the line-by-line fallback must work on the INFLATED bytes (the variable the decompress result was stored in)
     infl_vars = {t.id for n in gp.walk() if isinstance(n, ast.Assign) and isinstance(n.value, ast.Call) and call_name(n.value) == 'decompress'
                  for t in n.targets if isinstance(t, ast.Name)}
+    if zf is not gp:
+        # the inflated data comes back from the helper that holds the inflate stage: `data, complete = _helper(payload)`
+        infl_vars |= {x.id for n in gp.walk() if isinstance(n, ast.Assign) and isinstance(n.value, ast.Call) and call_name(n.value) == zf.name
+                      for t in n.targets for x in (t.elts if isinstance(t, ast.Tuple) else [t]) if isinstance(x, ast.Name)}
     for n in gp.walk():
         if isinstance(n, (ast.For, ast.comprehension)) and any(isinstance(x, ast.Call) and call_name(x) == 'decode' for x in ast.walk(n if isinstance(n, ast.For) else getattr(n, '_parent', n))):
             srcn = [x.id for x in ast.walk(n.iter) if isinstance(x, ast.Name)]
@@ -268,8 +287,18 @@ def run(repo: Repo, chk: Check, thorough: bool = False) -> None:
             if isinstance(v, ast.Constant):
                 tmpl += str(v.value)
             elif isinstance(v, ast.FormattedValue):
-                tmpl += '\x00'
-                holes.append(v.value)
+                # a hole filled with a class constant (`{self._PRIORITY}`) is constant text
+                cv = None
+                if isinstance(v.value, ast.Attribute) and dotted(v.value.value) in ('self', 'cls') and gl.cls is not None and v.value.attr in gl.cls.aliases:
+                    try:
+                        cv = ast.literal_eval(gl.cls.aliases[v.value.attr])
+                    except Exception:
+                        cv = None
+                if cv is not None and v.conversion == -1 and v.format_spec is None:
+                    tmpl += str(cv)
+                else:
+                    tmpl += '\x00'
+                    holes.append(v.value)
         fields = tmpl.rstrip('\n').split(' ')
         ok5 = len(fields) == 5 and tmpl.endswith('\n')
         chk.ob('R17.4', f'{WRITER}._generateLine :: five space separated columns, newline terminated', ok5,
@@ -415,7 +444,7 @@ def run(repo: Repo, chk: Check, thorough: bool = False) -> None:
     # ------------------------------------------------------------------ R17.3 (addition): a damaged stream keeps what precedes the damage
     # "usable lines in the same file still resolve": truncation is handled by reading `eof`; a flipped byte in the MIDDLE of the stream makes
     # decompress() raise after it has inflated everything before it.  The handler of zlib.error must not throw that away (`decompressed = b\'\'`)
-    gp = repo.func('pydoctor.sphinx.SphinxInventory._getPayload')
+    gp = zf
     hs = [h for t in gp.walk() if isinstance(t, ast.Try) for h in t.handlers if h.type is not None and 'zlib.error' in norm(h.type) and
           any(isinstance(c, ast.Call) and call_name(c) == 'decompress' for st in t.body for c in ast.walk(st))]
     if not hs:
